@@ -24,7 +24,7 @@ var allCallers = []string{"k1", "k2", "k3"}
 
 var profiles = map[string]Profile{
 	"init": {Name: "init", Names: allNames, Callers: allCallers, Declared: [][]string{{"a"}, {"a", "b"}, {"b", "a", "b"}, {"a", "a"}},
-		AllowLookup: []bool{false, true}, Expiry: []int64{0}, CacheKinds: []string{"none", "empty", "readerr", "garbage", "partial", "complete", "stale"},
+		AllowLookup: []bool{false, true}, Expiry: []int64{0, 0, 30000}, CacheKinds: []string{"none", "empty", "readerr", "garbage", "partial", "complete", "stale", "zerostamp"},
 		Deadlines: []int64{0, 0, 3, 700, 10000}, LookupDl: []int64{0}, AdvanceMs: []int64{1, 2, 5, 100, 1000, 4096, 5000},
 		Weights: map[string]int{"respond": 30, "fail": 25, "svc": 10, "advance": 35, "read": 2, "handle": 3}, Steps: 40, StructPct: 30},
 	"poll": {Name: "poll", Names: allNames, Callers: allCallers, Declared: [][]string{{"a", "b"}, {"a"}},
